@@ -5,7 +5,11 @@ Import ListNotations.
 Open Scope string_scope.
 
 (* graph: script packages with their imports; everything else is native *)
-Inductive lcase := CLoad (graph : list (string * list string)) (top : string) (observed : option (list string)).
+Inductive lcase :=
+  | CLoad (graph : list (string * list string)) (top : string) (observed : option (list string))
+  (* files: number of files with top-level code per script package; observed: the package of EVERY marker line
+     (top-level code of each file, init) in the order the lines were printed *)
+  | CLoadE (graph : list (string * list string)) (files : list (string * nat)) (top : string) (observed : list string).
 
 Definition imports_of (g : list (string * list string)) (p : string) : option (list string) := aget p g.
 Fixpoint strs_eqb (a b : list string) : bool :=
@@ -21,6 +25,14 @@ Definition run_lcase (c : lcase) : bool :=
           strs_eqb (filter (fun p => match aget p g with Some _ => true | None => false end) l) o
       | LoadCycle, None => true
       | _, _ => false
+      end
+  | CLoadE g files top obs =>
+      let budget := S (List.length g + fold_right (fun e n => List.length (snd e) + n)%nat 0%nat g) in
+      match load (imports_of g) budget top with
+      | LoadOk l =>
+          strs_eqb (run_events (fun p => match aget p files with Some n => n | None => 0%nat end)
+                      (filter (fun p => match aget p g with Some _ => true | None => false end) l)) obs
+      | _ => false
       end
   end.
 Definition lmismatches (base : Z) (cs : list lcase) : list Z := mismatches_from run_lcase base cs.
